@@ -526,3 +526,190 @@ Proof.
     + unfold shacl_arcs. rewrite Hch, Et, Etau, Hnt, Hac. unfold add_path, add_direct_path, add_inverse_path.
       rewrite Hgp. destruct (s_inv st); reflexivity.
 Qed.
+
+(** ** lifting to shapes and documents *)
+Lemma vres_all_pair {S A B} (f : S -> vres A) (g : S -> vres B) (R : B -> A -> Prop) (l : list S) :
+  (forall x, In x l -> exists a b, f x = VOk a /\ g x = VOk b /\ R b a) ->
+  exists la lb, vres_all (map f l) = VOk la /\ vres_all (map g l) = VOk lb /\ Forall2 R lb la.
+Proof.
+  induction l as [|x l IH]; intros H.
+  - exists [], []. repeat split. constructor.
+  - destruct (H x (or_introl eq_refl)) as [a [b [Hf [Hg Hr]]]].
+    destruct IH as [la [lb [Ha [Hb HR]]]]; [intros y Hy; apply H; right; exact Hy|].
+    exists (a :: la), (b :: lb). cbn [map vres_all]. rewrite Hf, Hg, Ha, Hb.
+    repeat split. constructor; assumption.
+Qed.
+
+Lemma shacl_view_arcs tau st arcs : shacl_arcs tau st = VOk arcs -> shacl_view tau st = VOk (RBlank arcs).
+Proof. unfold shacl_view. intros ->. reflexivity. Qed.
+
+Lemma shape_label_views ns name : ns_ok ns = true -> shape_ref name = true ->
+  exists i, shex_label ns name = VOk i /\ generate_shape_uri name = Some i.
+Proof.
+  intros Hok H. apply shape_ref_form in H as [i ->]. exists i. split.
+  - unfold shex_label, prefixize_shape_name.
+    change (Str "%<" ++ i ++ Str ">") with ("%"%char :: (Str "<" ++ i ++ Str ">")).
+    rewrite slice_from_1. unfold prefixize_cornered, remove_corners_strict.
+    replace (prefixb (Str "<") (Str "<" ++ i ++ Str ">")) with true by reflexivity.
+    change (Str "<" ++ i ++ Str ">") with (("<"%char :: i) ++ [">"%char]) at 1.
+    change (Str ">") with [">"%char] at 1. rewrite suffixb_close. cbn [andb].
+    rewrite slice_corners.
+    pose proof (read_iri_print ns i Hok) as Hr. unfold print_iri, prefixize_opt in Hr.
+    destruct (best_ns ns i) as [[n p]|]; rewrite Hr; reflexivity.
+  - unfold generate_shape_uri. change c_shacl_EXPECTED_SHAPE_BEGINING with (Str "%<").
+    change c_shacl_EXPECTED_SHAPE_ENDING with [">"%char].
+    replace (prefixb (Str "%<") (Str "%<" ++ i ++ Str ">")) with true by reflexivity.
+    change (Str "%<" ++ i ++ Str ">") with ((Str "%<" ++ i) ++ [">"%char]) at 1.
+    rewrite suffixb_close. cbn [andb]. rewrite slice_shape_name. reflexivity.
+Qed.
+
+Theorem shapes_agree ns tau sh : C11_dom_shape ns tau sh = true ->
+  exists cs d, shex_shape_view ns tau sh = VOk cs /\ shacl_shape tau sh = VOk d /\
+               same_nshape d (enc_shape cs) /\
+               cs_class cs = sh_class sh /\ List.length (cs_constraints cs) = List.length (sh_stmts sh).
+Proof.
+  unfold C11_dom_shape. rewrite !andb_true_iff. intros [[Hok Hname] Hst].
+  rewrite forallb_forall in Hst.
+  destruct (shape_label_views ns _ Hok Hname) as [i [Hl Hu]].
+  destruct (vres_all_pair (shex_view ns tau) (shacl_view tau) (fun b a => same_pshape b (enc a)) (sh_stmts sh))
+    as [cl [pl [Hc [Hp HR]]]].
+  { intros st Hin. destruct (views_agree ns tau st (Hst st Hin)) as [c [arcs [H1 [H2 H3]]]].
+    exists c, (RBlank arcs). split; [exact H1|]. split; [apply shacl_view_arcs, H2 | exact H3]. }
+  exists {| cs_label := i; cs_class := sh_class sh; cs_constraints := cl |}. eexists.
+  split; [|split; [|split; [|split]]].
+  - unfold shex_shape_view. rewrite Hl, Hc. reflexivity.
+  - unfold shacl_shape. rewrite Hu, Hp. reflexivity.
+  - split; [reflexivity|]. cbn [snd enc_shape cs_class cs_constraints].
+    constructor; [split; reflexivity|]. constructor; [split; reflexivity|].
+    clear Hc Hp. induction HR; cbn [map]; constructor; [split; [reflexivity | assumption] | assumption].
+  - reflexivity.
+  - cbn [cs_constraints]. clear Hp HR. revert cl Hc. generalize (sh_stmts sh) as l.
+    induction l as [|x l IH]; cbn [map vres_all]; intros cl Hc.
+    + inversion Hc. reflexivity.
+    + destruct (shex_view ns tau x); try discriminate.
+      destruct (vres_all (map (shex_view ns tau) l)) eqn:E; try discriminate.
+      inversion Hc; subst. cbn [List.length]. f_equal. apply IH. reflexivity.
+Qed.
+
+Theorem docs_agree ns tau shapes : forallb (C11_dom_shape ns tau) shapes = true ->
+  exists cs d, shex_doc_view ns tau shapes = VOk cs /\ shacl_doc tau shapes = VOk d /\
+               same_doc d (enc_doc cs).
+Proof.
+  intros H. rewrite forallb_forall in H.
+  destruct (vres_all_pair (shex_shape_view ns tau) (shacl_shape tau) (fun b a => same_nshape b (enc_shape a)) shapes)
+    as [cl [dl [Hc [Hd HR]]]].
+  { intros sh Hin. destruct (shapes_agree ns tau sh (H sh Hin)) as [cs [d [H1 [H2 [H3 _]]]]].
+    exists cs, d. auto. }
+  exists cl, dl. split; [exact Hc|]. split; [exact Hd|].
+  unfold same_doc, enc_doc. clear Hc Hd. induction HR; cbn [map]; constructor; assumption.
+Qed.
+
+(** ** reading the SHACL encoding back: [dec] inverts [enc] and does not
+    depend on the order of the arcs *)
+Lemma dec_int_rint n : dec_int (rint n) = Some n.
+Proof.
+  unfold dec_int, rint. rewrite str_eqb_refl, dec_of_N_digits, N_of_dec_of_N.
+  pose proof (dec_of_N_nonempty n) as H. destruct (dec_of_N n); [contradiction | reflexivity].
+Qed.
+
+Lemma dec_enc c : dec (enc c) = Some c.
+Proof.
+  destruct c as [inv p r mn mx]. unfold enc, enc_arcs, enc_counts. cbn [c_inv c_pred c_restr c_min c_max].
+  assert (Hmn : (if (mn =? 0)%N then Some 0%N else dec_int (rint mn)) = Some mn).
+  { destruct (N.eqb_spec mn 0); [subst; reflexivity | apply dec_int_rint]. }
+  unfold dec.
+  destruct r, inv, mx as [m|], (mn =? 0)%N;
+    cbn [enc_restr enc_path app arcs_get dec_path dec_restr rdf_list];
+    repeat match goal with |- context [str_eqb ?a ?b] =>
+             let v := eval vm_compute in (str_eqb a b) in
+             change (str_eqb a b) with v; cbn iota end;
+    cbn [arcs_get]; rewrite ?dec_int_rint in *; cbn [option_map]; rewrite ?Hmn; try reflexivity;
+    try (inversion Hmn; reflexivity).
+Qed.
+
+Lemma arcs_get_perm p a b : Permutation a b -> Permutation (arcs_get p a) (arcs_get p b).
+Proof.
+  induction 1 as [|[q v] a b _ IH|[q v] [q' v'] a|a b c _ IH1 _ IH2].
+  - constructor.
+  - cbn. destruct (str_eqb p q); [constructor|]; exact IH.
+  - cbn. destruct (str_eqb p q), (str_eqb p q'); try apply Permutation_refl. apply perm_swap.
+  - eapply perm_trans; eassumption.
+Qed.
+
+Lemma perm_short {A} (l l' : list A) : Permutation l l' -> (List.length l <= 1)%nat -> l = l'.
+Proof.
+  intros H Hl. destruct l as [|x [|y l]]; cbn in Hl; [| |lia].
+  - symmetry. apply Permutation_nil, H.
+  - symmetry. apply Permutation_length_1_inv, H.
+Qed.
+
+Definition dec_keys : list str :=
+  [SH "path"; SH "property"; SH "dataType"; SH "nodeKind"; SH "node"; SH "in"; SH "minCount"; SH "maxCount"].
+
+Lemma enc_arcs_short c k : In k dec_keys -> (List.length (arcs_get k (enc_arcs c)) <= 1)%nat.
+Proof.
+  destruct c as [inv p r mn mx]. unfold enc_arcs, enc_counts. cbn [c_inv c_pred c_restr c_min c_max].
+  intros Hk. cbn in Hk.
+  repeat (destruct Hk as [Hk|Hk]; [subst k|]); try contradiction;
+    destruct r, inv, mx as [m|], (mn =? 0)%N;
+    cbn [enc_restr enc_path app arcs_get rdf_list];
+    repeat match goal with |- context [str_eqb ?a ?b] =>
+             let v := eval vm_compute in (str_eqb a b) in
+             change (str_eqb a b) with v; cbn iota end;
+    cbn [arcs_get List.length]; lia.
+Qed.
+
+(** reading a property shape whose arcs are those of [enc c] in any order gives [c] *)
+Theorem dec_sound arcs c : Permutation arcs (enc_arcs c) -> dec (RBlank arcs) = Some c.
+Proof.
+  intros HP. rewrite <- (dec_enc c). unfold enc.
+  assert (G : forall k, In k dec_keys -> arcs_get k arcs = arcs_get k (enc_arcs c)).
+  { intros k Hk. symmetry. apply perm_short; [apply arcs_get_perm, Permutation_sym, HP | apply enc_arcs_short, Hk]. }
+  unfold dec, dec_path, dec_restr.
+  rewrite (G (SH "path")), (G (SH "property")), (G (SH "dataType")), (G (SH "nodeKind")), (G (SH "node")),
+    (G (SH "in")), (G (SH "minCount")), (G (SH "maxCount")) by (cbn; tauto).
+  reflexivity.
+Qed.
+
+Corollary read_back ns tau st : C11_dom ns tau st = true ->
+  exists c r, shex_view ns tau st = VOk c /\ shacl_view tau st = VOk r /\ dec r = Some c.
+Proof.
+  intros H. destruct (views_agree ns tau st H) as [c [arcs [H1 [H2 H3]]]].
+  exists c, (RBlank arcs). split; [exact H1|]. split; [apply shacl_view_arcs, H2 | apply dec_sound, H3].
+Qed.
+
+(** ** [C11_dom] leaves out exactly the four root causes *)
+Theorem dom_complete ns tau st :
+  stmt_wf ns tau st = true ->
+  rc_bnode tau st = false -> rc_nonliteral tau st = false ->
+  rc_tau_card tau st = false -> rc_tau_inverse tau st = false ->
+  C11_dom ns tau st = true.
+Proof.
+  unfold stmt_wf, C11_dom, rc_bnode, rc_nonliteral, rc_tau_card, rc_tau_inverse, is_tau, s_type.
+  intros H R1 R2 R3 R4. rewrite !andb_true_iff in H. destruct H as [[[[[H1 H2] H3] H4] H5] H6].
+  rewrite H1, H2, H3, H4, H5. cbn [andb].
+  destruct (s_types st) as [|ty [|ty2 tys]]; try discriminate. cbn [hd] in *.
+  destruct (str_eqb (s_prop st) tau); cbn [negb andb] in *.
+  - rewrite H6. apply negb_false_iff in R3. rewrite R3, R4. reflexivity.
+  - cbn [mem_str] in H6. rewrite R1, R2 in H6. rewrite !orb_false_r in H6. exact H6.
+Qed.
+
+Theorem dom_sound ns tau st : C11_dom ns tau st = true ->
+  stmt_wf ns tau st = true /\ rc_bnode tau st = false /\ rc_nonliteral tau st = false /\
+  rc_tau_card tau st = false /\ rc_tau_inverse tau st = false.
+Proof.
+  unfold stmt_wf, C11_dom, rc_bnode, rc_nonliteral, rc_tau_card, rc_tau_inverse, is_tau, s_type.
+  intros H. rewrite !andb_true_iff in H. destruct H as [[[[[H1 H2] H3] H4] H5] H6].
+  rewrite H1, H2, H3, H4, H5. cbn [andb].
+  destruct (s_types st) as [|ty [|ty2 tys]]; try discriminate. cbn [hd].
+  destruct (str_eqb (s_prop st) tau); cbn [negb andb].
+  - rewrite !andb_true_iff in H6. destruct H6 as [[A B] C]. apply negb_true_iff in A.
+    rewrite A, B, C. repeat split.
+  - rewrite !orb_true_iff in H6. destruct H6 as [[H|H]|H].
+    + apply str_eqb_eq in H. subst. repeat split.
+    + pose proof H as H'. apply shape_ref_form in H' as [i ->]. rewrite H.
+      cbn [mem_str]. rewrite orb_true_r. repeat split.
+    + rewrite H, !orb_true_r. unfold plain_iri in H. rewrite !andb_true_iff, !negb_true_iff in H.
+      destruct H as [_ Hk]. cbn [mem_str] in Hk. rewrite !orb_false_iff in Hk.
+      destruct Hk as [_ [K2 [K3 _]]]. rewrite K2, K3. repeat split.
+Qed.
